@@ -9,6 +9,9 @@ import common as C
 with C.Lock():
     ok, msgs = C.regen_arith()
     print("\n".join(msgs))
+    import k6check
+    ok3, msgs3 = k6check.regen_capi()
+    print("\n".join(msgs3))
     ok2, out, errors, dt = C.lake_build(["Cuckoo", "cuckoo-driver"])
     print("lake build: %s in %.0fs" % ("ok" if ok2 else "FAILED", dt))
     if not ok2:
